@@ -27,6 +27,11 @@ pub struct FrameBatch {
 }
 
 impl FrameBatch {
+  /// Largest number of frames one logical message can hold (the spill vector is
+  /// indexed by a `u8`). Pushing beyond this panics, so callers that take frames
+  /// from outside (the public send API, the wire) must check against it first.
+  pub const MAX_FRAMES: usize = u8::MAX as usize;
+
   pub fn new() -> Self {
     Self { inner: FrameBatchInner::Empty }
   }
